@@ -8,12 +8,12 @@ FP = [(r".", ["h_none"])]
 
 def queries(tier):
     k = 2 if tier == "quick" else 4
-    common = dict(units=UNITS, stubs=["libc.c"], flags=["--max-field-sensitivity-array-size", "100"])
+    common = dict(units=UNITS, stubs=["libc.c", "libc_loops.c"], flags=["--max-field-sensitivity-array-size", "300"])
     return [
-        Q("builtin_lookup", "C06/builtin.c", unwind_default=40, unwind={"strlen": 12, "strcmp": 12, "strncmp": 12},
+        Q("builtin_lookup", "C06/builtin.c", unwind_default=40, unwind={"strlen": 12, "strcmp": 12, "strncmp": 12, "memcpy": 30, "memset": 30, "memmove": 30},
           bounds="every id 0..0x1100 on the fresh registry", outside="registry states after registrations (register query)", **common),
         Q("register_history", "C06/register.c", harness_defines={"K": k}, unwind_default=14,
-          unwind={"strlen": 12, "strcmp": 12, "strncmp": 12, "harness": k + 2},
+          unwind={"strlen": 12, "strcmp": 12, "strncmp": 12, "harness": k + 2, "memcpy": 30, "memset": 30, "memmove": 30},
           bounds="%d registrations of symbolic kind (basic size 0..40, generic, named interface, named metatype; names from {alpha, beta_, abc}) each followed by id/name lookups" % k,
           outside="more than %d registrations; capacity exhaustion of a range" % k, **common),
     ]
